@@ -87,8 +87,9 @@ func validatePermTree(root *ptree.PermNode, isAccount bool) (bool, error) {
 
 		checkResult := false
 		if nameCheck == 0 {
-			// current node is AK, signature should be validated before
-			checkResult = true
+			// current node is AK: only the last element of an auth_require path has its signature
+			// validated before, so an AK counts only when it is that leaf
+			checkResult = len(pnode.Children) == 0
 		} else if nameCheck == 1 {
 			// current node is Account, so validation using ACLValidator
 			if pnode.ACL == nil {
